@@ -192,10 +192,21 @@ class CurveMod:
         if not self.optimized:
             return A
         if A is None:
-            ch = rng.randrange(3)
+            # every shape of a representative of infinity: (1,1,0), (0,1,0), (0,0,0), (x,0,0), (x,x,0), (x,y,0)
+            ch = rng.randrange(7)
+            one, zero = self.one(g), self.zero(g)
             if ch == 0:
-                return (self.one(g), self.one(g), self.zero(g))
-            return (self.rand_f(g, rng), self.rand_f(g, rng), self.zero(g))
+                return (one, one, zero)
+            if ch == 1:
+                return (zero, one, zero)
+            if ch == 2:
+                return (zero, zero, zero)
+            if ch == 3:
+                return (self.rand_f(g, rng), zero, zero)
+            if ch == 4:
+                x = self.rand_f(g, rng)
+                return (x, x, zero)
+            return (self.rand_f(g, rng), self.rand_f(g, rng), zero)
         lam = self.rand_f(g, rng) if scale else self.one(g)
         return (A[0] * lam, A[1] * lam, lam)
 
@@ -308,6 +319,9 @@ class CurveFamily:
                 elif name == "is_on_curve":
                     for P in cands:
                         yield dict(group=g, args=[enc_pt(cm.to_rep(g, P, rng))], on=True)
+                    if cm.optimized:
+                        for _ in range(6):
+                            yield dict(group=g, args=[enc_pt(cm.to_rep(g, None, rng))], on=True)
                     # off-curve points
                     r = cm.to_rep(g, A, rng)
                     if cm.optimized:
